@@ -965,7 +965,7 @@ def stream_exhaustive(R, ctab):
 
 
 def stream_random(R, ctab):
-    n = R.pick(260, 2500)
+    n = R.pick(220, 2500)
     cases = []
     for i in range(n):
         rng = C1.case_rng(R.seed, 'c05-random', i, 'ops')
@@ -1014,7 +1014,7 @@ def stream_policy(R, ctab):
 
 # ---- histogram viewer layer state
 def stream_viewer(R):
-    n = R.pick(150, 800)
+    n = R.pick(100, 800)
     done = 0
     try:
         from glue.viewers.histogram.viewer import SimpleHistogramViewer
